@@ -42,6 +42,7 @@ COMPONENTS_REAL = [
 ]
 COMPONENTS_STUB = ["the primary server (scripted stream)", "network (netsim)", "TSIG signer of the primary (independent hmac implementation)"]
 EXPECTED_PROBES = [
+    "valid_retry_after_failed_attempt",
     "net_tier_runs",
     "out_of_zone_glue_in_valid_stream",
     "valid_axfr",
@@ -594,6 +595,24 @@ def _run_msg(case, res, log):
     # follow-up: the zone is still usable (a writer is admitted at once)
     with b.zone.writer() as txn:
         pass
+    # follow-up 2: nothing of a failed attempt survives into the next one -- the unfaulted
+    # stream of the same chain must now converge to the server's target version
+    if exc is not None and info["fired"] is not None and style in ("axfr", "ixfr", "axfr_style") and not case.get("base_serial_lie"):
+        clean = dict(case)
+        clean["fault"] = {"k": "none", "pos": 0, "arg": 0}
+        cmsgs, _, _ = make_messages(clean)
+        cw = render_messages(b, cmsgs)
+        try:
+            with dns.xfr.Inbound(b.zone, rdtype, base_serial if mode == "IXFR" else None, False) as inbound2:
+                for w in cw:
+                    m2 = dns.message.from_wire(w, xfr=True, origin=origin, one_rr_per_rrset=(mode == "IXFR"))
+                    if inbound2.process_message(m2):
+                        break
+        except Exception as e2:  # noqa: BLE001
+            raise Violation("C13:retry-after-failure", f"{tag}: after the failed attempt a valid transfer of the same chain raised {type(e2).__name__}: {e2}")
+        want2 = model_of_version(b, versions, len(versions) - 1).snapshot()
+        Z.compare("C13:retry-after-failure", b, b.snap_nodes(), want2, f"{tag}: valid transfer after a failed attempt")
+        res.probes.inc("valid_retry_after_failed_attempt")
     # probes
     if info["fired"] is None:
         if any(r[0] == "OUT" for r in case["stream"]):
